@@ -43,7 +43,24 @@ type ICase struct {
 	Pre     []QOp `json:"pre"`
 	A       QOp   `json:"a"`
 	B       QOp   `json:"b"`
-	PauseAt int   `json:"pause_at"` // A is held at its n-th yield point (1-based)
+	B2      *QOp  `json:"b2,omitempty"` // a second operation on B's handle, right after B, still inside A
+	PauseAt int   `json:"pause_at"`     // A is held at its n-th yield point (1-based)
+}
+
+func (c ICase) bOps() []QOp {
+	if c.B2 != nil {
+		return []QOp{c.B, *c.B2}
+	}
+	return []QOp{c.B}
+}
+
+// bSteps: the atomic steps of B's handle, in order (who 1 = B, 2 = B2).
+func (c ICase) bSteps() []iStepT {
+	var out []iStepT
+	for i, op := range c.bOps() {
+		out = append(out, iSteps(op, 1+i)...)
+	}
+	return out
 }
 
 // iGate is the clock handed to the store: every read is a yield point.
@@ -81,6 +98,7 @@ var iHookLabels = []string{"sqlite.begin", "sqlite.commit.before", "sqlite.commi
 type iRun struct {
 	ResA  QRes   `json:"a"`
 	ResB  QRes   `json:"b"`
+	ResB2 QRes   `json:"b2"`
 	Snap  []Msg  `json:"snap"`
 	Post  []QRes `json:"post"`
 	Where string `json:"-"`
@@ -301,11 +319,14 @@ func iSerial(c ICase, order []iStepT) iRun {
 	}
 	defer w.close()
 	pre := append([]walletEntry(nil), w.wallet...)
-	ops := [2]QOp{c.A, c.B}
-	// both operations are resolved against the state after the prologue, as in the concurrent run
-	rs := [2]resolvedOp{w.resolve(c.A, prev), w.resolve(c.B, prev)}
-	var results [2]QRes
-	var selected [2][]string
+	ops := append([]QOp{c.A}, c.bOps()...)
+	// all operations are resolved against the state after the prologue, as in the concurrent run
+	rs := make([]resolvedOp, len(ops))
+	for k, op := range ops {
+		rs[k] = w.resolve(op, prev)
+	}
+	var results [3]QRes
+	var selected [3][]string
 	for i, st := range order {
 		var r resolvedOp
 		switch st.kind {
@@ -341,7 +362,7 @@ func iSerial(c ICase, order []iStepT) iRun {
 		}
 		results[st.who] = iCanonRes(pre, res)
 	}
-	run.ResA, run.ResB = results[0], results[1]
+	run.ResA, run.ResB, run.ResB2 = results[0], results[1], results[2]
 	iEpilogue(w, pre, &run)
 	return run
 }
@@ -392,7 +413,11 @@ func iConcurrent(c ICase, pauseAt int) iRun {
 	if w2.sql != nil {
 		defer w2.sql.Close()
 	}
-	rA, rB := w.resolve(c.A, prev), w2.resolve(c.B, prev)
+	rA := w.resolve(c.A, prev)
+	var rBs []resolvedOp
+	for _, op := range c.bOps() {
+		rBs = append(rBs, w2.resolve(op, prev))
+	}
 	for _, l := range iHookLabels {
 		label := l
 		verifhook.On(label, func() { gate.event(label) })
@@ -405,10 +430,11 @@ func iConcurrent(c ICase, pauseAt int) iRun {
 			verifhook.On(l, nil)
 		}
 	}()
-	doneA, doneB := make(chan QRes, 1), make(chan QRes, 1)
+	doneA, doneB := make(chan QRes, 1), make(chan [2]QRes, 1)
 	gate.armed.Store(true)
 	go func() { doneA <- w.exec(rA) }()
-	var resA, resB QRes
+	var resA QRes
+	var resB [2]QRes
 	aFinished := false
 	select {
 	case <-gate.reached:
@@ -422,7 +448,13 @@ func iConcurrent(c ICase, pauseAt int) iRun {
 		return run
 	}
 	gate.armed.Store(false)
-	go func() { doneB <- w2.exec(rB) }()
+	go func() {
+		var out [2]QRes
+		for k, r := range rBs {
+			out[k] = w2.exec(r)
+		}
+		doneB <- out
+	}()
 	if run.Held {
 		select {
 		case resB = <-doneB:
@@ -449,7 +481,7 @@ func iConcurrent(c ICase, pauseAt int) iRun {
 			return run
 		}
 	}
-	run.ResA, run.ResB = iCanonRes(pre, resA), iCanonRes(pre, resB)
+	run.ResA, run.ResB, run.ResB2 = iCanonRes(pre, resA), iCanonRes(pre, resB[0]), iCanonRes(pre, resB[1])
 	iEpilogue(w, pre, &run)
 	return run
 }
@@ -472,7 +504,10 @@ func iClass(op QOp) string {
 }
 
 func iProps(c ICase) string {
-	ks := iClass(c.A) + iClass(c.B)
+	ks := iClass(c.A)
+	for _, op := range c.bOps() {
+		ks += iClass(op)
+	}
 	var ps []string
 	if strings.Contains(ks, "D") {
 		ps = append(ps, "C03")
@@ -505,6 +540,11 @@ func iDiff(a, b iRun) string {
 	if string(ja) != string(jb) {
 		d = append(d, fmt.Sprintf("answer of B %s vs %s", ja, jb))
 	}
+	ja, _ = json.Marshal(a.ResB2)
+	jb, _ = json.Marshal(b.ResB2)
+	if string(ja) != string(jb) {
+		d = append(d, fmt.Sprintf("answer of B2 %s vs %s", ja, jb))
+	}
 	ma, mb := Snap{}, Snap{}
 	for _, m := range a.Snap {
 		ma[m.ID] = m
@@ -534,7 +574,7 @@ func runICase(c ICase, prop string) qOutcome {
 		return out
 	}
 	var refs []iRun
-	for _, order := range iOrders(iSteps(c.A, 0), iSteps(c.B, 1)) {
+	for _, order := range iOrders(iSteps(c.A, 0), c.bSteps()) {
 		r := iSerial(c, order)
 		if r.Fail != nil {
 			// a sequential step the validator rejects belongs to the sequential tiers
@@ -567,7 +607,7 @@ func runICase(c ICase, prop string) qOutcome {
 		labels["inconclusive-time-budget"] = true
 		return finish()
 	}
-	for _, r := range append([]QRes{conc.ResA, conc.ResB}, conc.Post...) {
+	for _, r := range append([]QRes{conc.ResA, conc.ResB, conc.ResB2}, conc.Post...) {
 		// SQLite gave up waiting for the write lock (5 s busy timeout): the machine, not the store
 		if strings.HasPrefix(r.Err, "other:") && (strings.Contains(r.Err, "locked") || strings.Contains(r.Err, "busy")) {
 			out.Skipped = "sqlite busy timeout: " + r.Err
@@ -575,7 +615,12 @@ func runICase(c ICase, prop string) qOutcome {
 			return finish()
 		}
 	}
-	labels["pair-"+iClass(c.A)+iClass(c.B)] = true
+	pair := "pair-" + iClass(c.A) + iClass(c.B)
+	if c.B2 != nil {
+		pair += iClass(*c.B2)
+		labels["two-operations-inside-a"] = true
+	}
+	labels[pair] = true
 	labels["backend-"+c.Cfg.Backend] = true
 	switch {
 	case !conc.Held:
@@ -613,13 +658,20 @@ func runICase(c ICase, prop string) qOutcome {
 	ab, ba := refs[0], refs[len(refs)-1]
 	props := iProps(c)
 	f := fail(props, "not-serializable", len(c.Pre), "A=%s held at its yield point %d (%s) while B=%s ran on a second handle (B completed inside A: %v): the outcome is that of none of the %d sequential orders of their steps; against A;B: [%s]; against B;A: [%s]",
-		opString(c.A), pauseAt, conc.Where, opString(c.B), conc.BDone, len(refs), iDiff(conc, ab), iDiff(conc, ba))
+		opString(c.A), pauseAt, conc.Where, iBString(c), conc.BDone, len(refs), iDiff(conc, ab), iDiff(conc, ba))
 	if propIn(props, prop) {
 		out.Failure = f
 	} else {
 		out.Foreign = append(out.Foreign, props+":not-serializable")
 	}
 	return finish()
+}
+
+func iBString(c ICase) string {
+	if c.B2 != nil {
+		return opString(c.B) + " then " + opString(*c.B2)
+	}
+	return opString(c.B)
 }
 
 func opString(op QOp) string {
@@ -763,6 +815,31 @@ func genICase(prop string) *rapid.Generator[ICase] {
 			one, other = other, one
 		}
 		c.A, c.B = one, other
+		// one case in three puts a second operation on B's handle: what needs two things to happen inside
+		// A (a lease ended by someone else AND the message leased again) is then within reach
+		if rapid.IntRange(0, 2).Draw(t, "second_b") == 0 {
+			if focus && rapid.Bool().Draw(t, "relet_motif") {
+				// A presents the first lease; inside A that lease is ended by other means and the message let again
+				zero := LRef{K: 0}
+				c.A = genIOp(t, "a_first_lease", []string{"ack", "nack", "ext", "dead"}, true)
+				c.A.L = &zero
+				c.B = genIOp(t, "b_ends_lease", []string{"ack", "nack", "dead", "cancel", "cancelf", "nackb"}, true)
+				if c.B.L != nil {
+					c.B.L = &zero
+				}
+				if c.B.K == "cancel" {
+					c.B.IDs = []string{"m0"}
+				}
+				b2 := genIOp(t, "b2_relet", []string{"deq", "deq", "requeue", "resume"}, true)
+				if b2.K != "deq" {
+					b2.IDs = []string{"m0"}
+				}
+				c.B2 = &b2
+			} else {
+				b2 := genIOp(t, "z", pool, focus)
+				c.B2 = &b2
+			}
+		}
 		c.PauseAt = rapid.SampledFrom([]int{1, 2, 2, 3, 3, 4, 4, 5, 5, 6, 7, 8, 11}).Draw(t, "pause_at")
 		return c
 	})
